@@ -80,3 +80,34 @@ contract(
     loops={"0": Loop(inv=["0 <= i and i <= n"]), "0.0": Loop(inv=["i + 1 <= j or j == i + 1"]),
            "0.1": Loop(inv=[]), "0.1.0": Loop(inv=[])},
 )
+
+
+# ====================================================================== min_ann controllers (C16): the search never leaves its interval
+# "the minimising-network controllers return a finite value inside their search interval": every value x_best can take
+# is -1000, a bracket point -990 + 10 k (ghost integers kb, kc: x_b and x_c sit on that grid and x_b < 1000 puts the next
+# point at 1000 at most) or a golden-section point strictly between x_low and x_high, which stay inside [-1000, 1000]
+# because nextafter never crosses its argument.  arctan is an uninterpreted total function: the comparisons of network
+# outputs may go either way.  Partial correctness only: termination of the three loops is not proved (floats as reals).
+from pyvc.floatsym import factory_dims  # noqa: E402
+
+MA = "moptipyapps.dynamic_control.controllers.min_ann"
+_GRID = ("x_b == -990 + 10 * kb and x_c == -990 + 10 * kc and 0 <= kb and kb <= kc and kc <= kb + 1 and kc <= 199"
+         " and -1000 <= x_a and -1000 <= x_low")
+_BEST = "-1000 <= x_best and x_best <= 1000"
+for _fn, (_sd, _cd, _pd) in sorted(factory_dims(MA, "min_anns").items()):
+    contract(
+        f"{MA}:{_fn}", props="C16 C13",
+        params={"state": A1(None, "real"), "_": REAL, "params": A1(None, "real"), "out": A1(None, "real", uninit=True)},
+        ghosts={"kb": PYINT, "kc": PYINT}, i64=False, modifies=["out"],
+        requires=[f"len(state) == {_sd} and len(params) == {_pd} and len(out) == {_cd}", "kb == 0 and kc == 0"],
+        ghost_code={"after assign x_c #1": ["kc = kb + 1"], "after assign x_b #0": ["kb = kc"], "after assign x_b #1": ["kb = kc"]},
+        loops={
+            "0": Loop(inv=[tag("C16", "best-inside-the-interval", _BEST), tag("C16", "bracket-points-on-the-grid", _GRID)]),
+            "0.0": Loop(inv=[tag("C16", "best-inside-the-interval", _BEST), tag("C16", "bracket-points-on-the-grid", _GRID)]),
+            "0.1": Loop(inv=[tag("C16", "best-inside-the-interval", _BEST), tag("C16", "bracket-points-on-the-grid", _GRID),
+                             tag("C16", "section-inside-the-interval", "x_high <= 1000 and delta == x_high - x_low")]),
+        },
+        ensures=[tag("C16", "result-inside-the-search-interval", "-1000 <= out[0] and out[0] <= 1000 and written(out, 0)")],
+        assumptions=["floats as reals; arctan total; numpy nextafter(x, +-inf) does not cross x; termination of the bracket / "
+                     "golden-section loops not proved"],
+    )
